@@ -6,6 +6,9 @@ memo plus a pre-check that follows every edge kind the passes recurse over, None
 Round 4: Resource.get_available_units never hands out the calendar's None (directly or through a cache on self); an edge kind
 of the wait-for graph that is followed only under an extra condition is reported as narrowed; proofs that fail because a
 loop / sequence is written in a form the inference does not follow are UNDECIDED, not REFUTED.
+Round 5: a bare next() on a finite / filtered iterator (StopIteration); None-safety by must-analysis (every path to the use
+assigns the field or passes a branch where it is not None) for merged `x is None and leaf` tests; the loop-exit inference
+follows a per-iteration working copy of the remaining work (spliced one-day helper).
 Not decided: stack depth on legitimately deep acyclic inputs; exceptions raised inside user supplied IResource /
 calendar callables; clone()'s dictionary lookups (assumption table: keys are drawn from the collection that built the map).
 """
